@@ -21,6 +21,7 @@ type sgen struct {
 	depth  int
 	noDB   bool // sources may not name a database (DELETE, DROP SERIES)
 	noRP   bool // sources may not name a retention policy (DROP SERIES)
+	eol    int  // 0 = not drawn yet, 1 = ordinary white space, 2 = every kind of line end mixed (lone CR, LF, CRLF)
 }
 
 // pendingFindings: defects found by these streams that are reported but not yet recorded in
@@ -40,6 +41,18 @@ func (g *sgen) chance(n int) bool { return !g.plain && g.r.Intn(n) == 0 }
 func (g *sgen) ws() string {
 	if g.plain {
 		return " "
+	}
+	// one statement in four is laid out with every kind of line end mixed: a lone CR, a lone LF and CRLF are
+	// each one line break and plain white space (round-4 seeded change C01-1: a lone CR armed a flag that made
+	// the reader drop the next lone LF, however far away)
+	if g.eol == 0 {
+		g.eol = 1
+		if g.r.Intn(4) == 0 {
+			g.eol = 2
+		}
+	}
+	if g.eol == 2 {
+		return pick(g.r, []string{"\r", "\n", "\r", "\n", "\r\n", " ", "\r\r\n", "\n\r", "\r ", "\t"})
 	}
 	switch x := g.r.Intn(100); {
 	case x < 72:
